@@ -232,6 +232,11 @@ class Isomorphism(Generic[ClassType1, ObjType1, ClassType2, ObjType2]):
 
         # If different type of rules are applied, the trees are not isomorphic
         assert isinstance(rule1, Rule) and isinstance(rule2, Rule)
+        # Only one equivalence step is skipped on each side. If the rule of the class
+        # we arrived at is again an equivalence it can only be matched with a rule
+        # that is one too, as the parse tree map steps through both or neither.
+        if rule1.is_equivalence() != rule2.is_equivalence():
+            return Isomorphism._INVALID
         if not self._constructor_match(rule1, rule2, curr1, curr2):
             return Isomorphism._INVALID
 
